@@ -8,7 +8,7 @@ EXPLANATION = ('Structural necessary conditions: the ack-timeout record is creat
                'operation\'s own timeout option (all three operation kinds covered); the firing predicate is deadline <= now and is evaluated in '
                'the Connected and PendingDisconnect services; the heap is cleared at close/reset; failing a missing id is a no-op; '
                'interruption counts are incremented for both ack tables before they are drained, compared with `>` against the limit, and '
-               'fail with the retries-exceeded error.')
+               'fail with the retries-exceeded error. Added in round 3: the timeout loop retires every due record in one service. Added after the mutation sweeps: the ack-timeout and retry-limit setters store their argument.')
 ASSUMPTIONS = ['not decided: boundary timing over all schedules (only the sites that start, compare and clear)']
 P = 'src/protocol.rs'
 PS = 'protocol::ProtocolState'
